@@ -247,8 +247,10 @@ CHECKS["C19"] = dict(
           "particle), every use has an earlier declaration, in whatever order the groups Python leaves unordered come out. "
           "The correspondence parses BOTH generated texts into content (event type, constants, variables, parameter declarations, "
           "amplitudes with spin factors / lineshapes / counts) and into this symbol structure (what each section declares, what each "
-          "lineshape uses, sections in order) and compares each with the model. Executed only: the order of the members inside an array, "
-          "execution of the Python text against a stand-in goofit module, returned string = printed text, command-line entry point."),
+          "lineshape uses, sections in order, members of every array in order) and compares each with the model. "
+          "The members of an array are exactly the parameters whose name contains the family prefix, ordered by the integer after the prefix "
+          "(strictly when distinct: C19_array_members_ordered; a non-integer index makes the conversion fail, in the model as in pandas). "
+          "Executed only: execution of the Python text against a stand-in goofit module, returned string = printed text, command-line entry point."),
     design="DESIGN.md §5 C19",
     technique="Coq proof (closedness of the generated model over expanded amplitudes; scoping of the symbol sequence by a defs-carrying predicate, invariant under permutation of unordered groups) + differential correspondence on both parsed outputs + executed output checks")
 CHECKS["C20"] = dict(
